@@ -70,6 +70,9 @@ impl Api {
 
 /// One fault per execution: the `index`-th call (1-based) of the chosen channel fails.
 /// channel: 0 span_formatter, 1 marker_formatter, 2 number_formatter, 3 sink write_str, 255 none.
+/// channels 10 (sink) and 11..=13 (callback 0..=2) are not failures but RE-ENTRY: at its index-th call the sink / callback,
+/// being caller code, formats another Span and Position itself (a logging writer, a decorating option that quotes a location)
+/// before doing its job. With `sticky` every later call re-enters too.
 #[derive(Clone, Debug, PartialEq, Eq)]
 pub struct Plan {
     pub channel: u8,
@@ -94,11 +97,14 @@ impl Plan {
     pub fn cb(ch: usize, index: usize, sticky: bool, after: bool, n: usize) -> Plan {
         Plan { channel: ch as u8, index, sticky, cb_after_write: after, cap: 10 * n + 100 }
     }
+    pub fn reenter(target: u8, index: usize, sticky: bool, n: usize) -> Plan {
+        Plan { channel: 10 + target, index, sticky, cb_after_write: false, cap: 10 * n + 100 }
+    }
     pub fn to_json(&self) -> Value {
         if self.is_none() {
             return json!({"channel": "none"});
         }
-        let name = ["span_formatter", "marker_formatter", "number_formatter", "sink"][self.channel as usize];
+        let name = CHANNEL_NAMES[self.channel as usize];
         json!({"channel": name,
                "index": self.index, "sticky": self.sticky, "cb_after_write": self.cb_after_write, "cap": self.cap})
     }
@@ -107,7 +113,7 @@ impl Plan {
         if ch == "none" {
             return Some(Plan::none());
         }
-        let channel = ["span_formatter", "marker_formatter", "number_formatter", "sink"].iter().position(|c| *c == ch)? as u8;
+        let channel = CHANNEL_NAMES.iter().position(|c| *c == ch)? as u8;
         Some(Plan {
             channel,
             index: j.get("index")?.as_u64()? as usize,
@@ -116,6 +122,17 @@ impl Plan {
             cap: j.get("cap")?.as_u64()? as usize,
         })
     }
+}
+
+pub const CHANNEL_NAMES: [&str; 14] = ["span_formatter", "marker_formatter", "number_formatter", "sink", "", "", "", "", "", "",
+    "reenter_from_sink", "reenter_from_span_formatter", "reenter_from_marker_formatter", "reenter_from_number_formatter"];
+
+/// What re-entering caller code does: format another span and another position of another text with the default option.
+fn reenter() {
+    let t = "ab\ncd\nef";
+    let _ = Span::new(t, 1, 7).map(|s| s.to_string());
+    let _ = Span::new(t, 4, 5).map(|s| s.to_string());
+    let _ = Position::new(t, 8).map(|p| p.to_string());
 }
 
 #[derive(Clone, Debug)]
@@ -156,6 +173,7 @@ pub struct Exec {
     pub sink_faults_fired: usize,
     pub cb_faults_fired: [usize; 3],
     pub calls_after_first_error: usize,
+    pub reentries: usize,
 }
 
 struct StepCap;
@@ -171,6 +189,7 @@ pub struct SimWriter {
     cb_faults_fired: [usize; 3],
     first_error_at: Option<usize>,
     calls_after_first_error: usize,
+    reentries: usize,
     events: Vec<Event>,
 }
 impl SimWriter {
@@ -186,6 +205,7 @@ impl SimWriter {
             cb_faults_fired: [0; 3],
             first_error_at: None,
             calls_after_first_error: 0,
+            reentries: 0,
             events: Vec::new(),
         }
     }
@@ -225,6 +245,10 @@ impl SimWriter {
     fn callback(&mut self, ch: usize, s: &str) -> fmt::Result {
         self.tick();
         self.cb_calls[ch] += 1;
+        if self.hit(11 + ch as u8, self.cb_calls[ch]) {
+            self.reentries += 1;
+            reenter();
+        }
         self.events.push(Event { channel: ch as u8, text: s.to_string(), row: self.rows, out_len: self.out.len() });
         let hit = self.hit(ch as u8, self.cb_calls[ch]);
         if hit && !self.plan.cb_after_write {
@@ -245,6 +269,10 @@ impl fmt::Write for SimWriter {
     fn write_str(&mut self, s: &str) -> fmt::Result {
         self.tick();
         self.sink_calls += 1;
+        if self.hit(10, self.sink_calls) {
+            self.reentries += 1;
+            reenter();
+        }
         if self.hit(3, self.sink_calls) {
             self.sink_faults_fired += 1;
             self.first_error_at.get_or_insert(self.out.len());
@@ -371,5 +399,6 @@ pub fn execute(c: &Case, api: Api, plan: &Plan) -> Exec {
         sink_faults_fired: w.sink_faults_fired,
         cb_faults_fired: w.cb_faults_fired,
         calls_after_first_error: w.calls_after_first_error,
+        reentries: w.reentries,
     }
 }
